@@ -7,13 +7,15 @@ tile (0,0); index grows right/up unless flipped), by exact separating-axis tests
 by shapely + a fresh pyproj.Transformer for cross-CRS queries and by the slippy-map formula for web tiles.
 
 Numerics: alphabet D (dyadic) => every comparison is exact (tolerance 0); alphabet R (30 m, 0.1 deg,
-1/3, UTM-sized origins) => exact rationals of the float inputs with tolerance 1e-9*(|value|+pixel).
+1/3, UTM-sized origins, 4.5e-6 and 1e5 pixels) => exact rationals of the float inputs with tolerance
+16 ulp of the coordinate magnitudes involved + 1e-9 pixel (never a fraction of the coordinate).
 
-Query semantics demanded (see ctx.assumptions): a tile whose footprint overlaps the query by >= 5e-7
-units in both axes (constructed: >= 1e-6) MUST be returned; a tile separated from the query by a gap
->= 5e-7 MUST NOT be returned; for a bounding-box query a tile that only touches the query (overlap
-depth <= 0, i.e. shared edge or gap) MUST NOT be returned either (the 1e-8 exclusion; pinned by the
-repository's own tight-query test); overlap depths in (0, 5e-7) and every polygon contact are left open.
+Query semantics demanded (see ctx.assumptions): bounding-box query: overlap depth >= 1.0005e-8 in both
+axes => tile MUST be returned; depth <= 0.9995e-8 (contact within 1e-8, touching, gap) => MUST NOT be
+returned (constructed: 0, +-1e-9, f x 1e-8 for f in 0.9/0.999/1.001/1.1, +-1e-6, quarter tile). Polygon
+queries: clear overlap (>= 5e-7) required, clear gap forbidden, exact touching on D forbidden, other
+contacts open. Non-areal / multi-part / collection / empty / CRS-less geometries: slice query-geomtypes.
+Further slices: argument encodings, call histories on one instance (differential vs a fresh one).
 """
 from __future__ import annotations
 
@@ -424,10 +426,11 @@ TOLQ = Fr(1e-8)  # the property's edge-contact exclusion (absolute, CRS units)
 TOLQ_LO, TOLQ_HI = TOLQ * Fr(9995, 10000), TOLQ * Fr(10005, 10000)
 
 
-def _axis_full():
+def _axis_full(tier="thorough"):
+    offs = OFFS if tier == "thorough" else tuple(o for o in OFFS if "f0.999" not in o and "f1.001" not in o)
     iv = [(0, "0", 1, "0"), (-1, "0", 1, "0"), (-2, "0", -1, "0")]
-    iv += [(0, e, 2, "-q") for e in OFFS]
-    iv += [(-1, "+q", 1, e) for e in OFFS]
+    iv += [(0, e, 2, "-q") for e in offs]
+    iv += [(-1, "+q", 1, e) for e in offs]
     iv += [(0, "+t", 1, "-t"), (0, "-t", 1, "+t"), (0, "-c", 1, "+c"), (0, "+c", 1, "-c")]
     iv += [(0, "-f0.999", 1, "+f0.999"), (0, "-f1.001", 1, "+f1.001")]
     iv += [(0, "-c", 0, "+c"), (0, "+q", 0, "+q"), (0, "0", 0, "0"), (0, "-t", 0, "+t")]
@@ -440,18 +443,21 @@ def _axis_full():
 
 
 AX_FULL = _axis_full()
+AX_FULL_Q = _axis_full("quick")
 AX_SMALL = ((0, "0", 1, "0"), (0, "+q", 2, "-q"), (-1, "+q", 1, "+c"), (0, "-c", 1, "+t"), (-2, "0", -1, "0"),
             (0, "+q", 0, "+q"))
 
 
 def gen_bbox(tier):
+    full = AX_FULL if tier == "thorough" else AX_FULL_Q
+
     def gen():
         for spec in all_specs(tier):
-            for qx in AX_FULL:
+            for qx in full:
                 for qy in AX_SMALL:
                     yield (spec, qx, qy)
             for qx in AX_SMALL:
-                for qy in AX_FULL:
+                for qy in full:
                     if qy not in AX_SMALL:
                         yield (spec, qx, qy)
 
@@ -545,7 +551,7 @@ def run_bbox(case):
         judge_tiles(r2, m, q, ibset, cand, cl, "idx_bounds", k, what.replace(".tiles(", ".idx_bounds(") + f" -> {ib}")
         r.fails.extend(r2.fails)
     # other entry points with the same arguments, judged by the same oracle
-    if not thin:
+    if not thin and (qy in AX_SMALL[:3] or qx in AX_SMALL[:1]):
         cache = {}
         ret2 = [tuple(i) for i, _ in gs.tiles_from_geopolygon(geom.box(lox, loy, hix, hiy, crs), geobox_cache=cache)]
         if sorted(ret2) != sorted(returned):
@@ -556,7 +562,7 @@ def run_bbox(case):
         ret3 = [tuple(i) for i, _ in gs.tiles(bounds, geobox_cache=cache)]
         if ret3 != returned:
             r.fail(f"tiles:geobox_cache-changes-result:{k}", f"{what}: {returned} without, {ret3} with a geobox_cache")
-        if alph == "D" and qy in AX_SMALL[:2]:
+        if alph == "D" and qy in AX_SMALL[:1]:
             for kw in ("bbox", "geopolygon"):
                 gj = gs.geojson(**{kw: bounds if kw == "bbox" else geom.box(lox, loy, hix, hiy, crs)})
                 ret4 = [tuple(int(v) for v in f["properties"]["idx"].split(",")) for f in gj["features"]]
@@ -734,6 +740,15 @@ def run_poly(case):
     shape_cls = name.rstrip("+-dt0") or name
     nreq, nforb, nopen = judge_tiles(r, m, None, returned, cand, classify,
                                      "tiles_from_geopolygon", f"{shape_cls}:{k}", what)
+    if orient == "ccw" and base == (0, 0):
+        # same argument through the other entry point
+        gj = gs.geojson(geopolygon=g)
+        ret2 = [tuple(int(v) for v in f["properties"]["idx"].split(",")) for f in gj["features"]]
+        if sorted(ret2) != sorted(returned):
+            r2 = R()
+            judge_tiles(r2, m, None, ret2, cand, classify, "geojson:geopolygon", f"{shape_cls}:{k}",
+                        what.replace(".tiles_from_geopolygon(", ".geojson(geopolygon="))
+            r.fails.extend(r2.fails)
     # forbidden tiles inside the query's bounding box exercise the polygon filter (not only the bbox)
     inbox = sum(1 for idx in cand if rect_depth(qb, m.fp(*idx)) >= REQ and classify(m.fp(*idx)) == "forbid:disjoint")
     r.outcome = f"{name}:n{min(len(returned), 12)}:open{min(nopen, 4)}:filtered{min(inbox, 3)}"
@@ -873,6 +888,10 @@ def run_geomtypes(case):
             got = [tuple(i) for i, _ in gs.tiles_from_geopolygon(g)]  # an exception here is reported by the framework
             if got:
                 r.fail(f"tiles_from_geopolygon:empty-query-returns-tiles:{parts}", f"{what}: empty {parts} -> {got}")
+            gj = gs.geojson(geopolygon=g)
+            if gj.get("features"):
+                r.fail(f"geojson:empty-query-returns-tiles:{parts}", f"{what}: geojson(geopolygon=empty {parts}) -> "
+                                                                     f"{len(gj['features'])} features")
             r.outcome += ":n0"
             return r
         # geometry without a CRS: the documented error of to_crs, or an answer (then judged as if native)
@@ -1106,7 +1125,7 @@ def gen_web(tier):
 
     def gen():
         for npix in (256, 512):
-            for z in range(0, zmax + 1):
+            for z in list(range(0, zmax + 1)) + ([16, 20] if tier == "thorough" else [16]):
                 n = 2 ** z
                 vals = range(n) if z <= 4 else sorted({0, 1, n // 2 - 1, n // 2, n - 2, n - 1})
                 for tx in vals:
@@ -1185,6 +1204,374 @@ def run_web(case):
 
 
 # ---------------------------------------------------------------------------------------------
+# slice 7: the same grid / index / point / query given in other encodings behaves identically
+# ---------------------------------------------------------------------------------------------
+ENC_BASES = tuple(("D", "EPSG:3857", shp, res, org, fx, fy)
+                  for shp in ((2, 8), (5, 3)) for res in ((0.5, -0.5), (-2.0, 4.0), (8.0, -8.0))
+                  for org in (None, (3.5, -1.25), (0.0, 2.5)) for fx, fy in FLIPS)
+ENC_VARIANTS = ("crs-int", "crs-lower", "crs-upper", "crs-wkt", "crs-projjson", "crs-pyproj", "crs-CRS",
+                "shape-list", "shape-Shape2d", "shape-wh", "shape-numpy", "res-int", "res-np64", "res-np32", "res-yx",
+                "res-scalar", "origin-yx", "origin-np64", "origin-np32", "origin-int", "origin-tuple-form",
+                "origin-negzero", "origin-explicit-zero", "flips-int", "flips-numpy", "positional", "all-at-once")
+PROBE_IDX = ((0, 0), (1, -2), (-3, 2), (2, 1))
+
+
+def _np():
+    import numpy as np  # pylint: disable=import-outside-toplevel
+    return np
+
+
+def build_variant(spec, var):
+    """-> GridSpec built from equal-but-differently-typed arguments, or None when the variant does not apply"""
+    from odc.geo import res_, resyx_, wh_, yx_  # pylint: disable=import-outside-toplevel
+    from odc.geo.crs import CRS  # pylint: disable=import-outside-toplevel
+    from odc.geo.types import shape_  # pylint: disable=import-outside-toplevel
+    np = _np()
+    _a, crs, (ny, nx), (rx, ry), org, fx, fy = spec
+    kw = dict(crs=crs, tile_shape=(ny, nx), resolution=resxy_(rx, ry),
+              origin=None if org is None else xy_(*org), flipx=fx, flipy=fy)
+    code = int(crs.split(":")[1])
+    every = var == "all-at-once"
+    if var == "crs-int" or every:
+        kw["crs"] = code
+    if var == "crs-lower":
+        kw["crs"] = f"epsg:{code}"
+    if var == "crs-upper":
+        kw["crs"] = f"EPSG:{code}"
+    if var == "crs-wkt":
+        kw["crs"] = pyproj.CRS.from_epsg(code).to_wkt()
+    if var == "crs-projjson":
+        kw["crs"] = pyproj.CRS.from_epsg(code).to_json_dict()
+    if var == "crs-pyproj":
+        kw["crs"] = pyproj.CRS.from_epsg(code)
+    if var == "crs-CRS":
+        kw["crs"] = CRS(f"epsg:{code}")
+    if var == "shape-list":
+        kw["tile_shape"] = [ny, nx]
+    if var == "shape-Shape2d":
+        kw["tile_shape"] = shape_((ny, nx))
+    if var == "shape-wh":
+        kw["tile_shape"] = wh_(nx, ny)
+    if var == "shape-numpy" or every:
+        kw["tile_shape"] = (np.int64(ny), np.int32(nx))
+    integral = float(rx).is_integer() and float(ry).is_integer()
+    if var == "res-int":
+        if not integral:
+            return None
+        kw["resolution"] = resxy_(int(rx), int(ry))
+    if var == "res-np64":
+        kw["resolution"] = resxy_(np.float64(rx), np.float64(ry))
+    if var == "res-np32" or every:
+        kw["resolution"] = resxy_(np.float32(rx), np.float32(ry))
+    if var == "res-yx":
+        kw["resolution"] = resyx_(ry, rx)
+    if var == "res-scalar":
+        if not (rx > 0 and ry == -rx):
+            return None
+        kw["resolution"] = rx if not integral else int(rx)
+    if var.startswith("origin-"):
+        ox, oy = (0.0, 0.0) if org is None else org
+        if var == "origin-yx":
+            kw["origin"] = yx_(oy, ox)
+        elif var == "origin-np64":
+            kw["origin"] = xy_(np.float64(ox), np.float64(oy))
+        elif var == "origin-np32":
+            kw["origin"] = xy_(np.float32(ox), np.float32(oy))
+        elif var == "origin-int":
+            if not (float(ox).is_integer() and float(oy).is_integer()):
+                return None
+            kw["origin"] = xy_(int(ox), int(oy))
+        elif var == "origin-tuple-form":
+            kw["origin"] = xy_((ox, oy))
+        elif var == "origin-negzero":
+            if ox != 0 and oy != 0:
+                return None
+            kw["origin"] = xy_(-0.0 if ox == 0 else ox, -0.0 if oy == 0 else oy)
+        elif var == "origin-explicit-zero":
+            if org is not None:
+                return None
+            kw["origin"] = xy_(0, 0)
+    if every and org is not None:
+        kw["origin"] = yx_(np.float64(org[1]), np.float32(org[0]))
+    if var == "flips-int" or every:
+        kw["flipx"], kw["flipy"] = int(fx), int(fy)
+    if var == "flips-numpy":
+        kw["flipx"], kw["flipy"] = np.bool_(fx), np.bool_(fy)
+    if var == "positional":
+        return GridSpec(kw["crs"], kw["tile_shape"], kw["resolution"], kw["origin"], kw["flipx"], kw["flipy"])
+    return GridSpec(**kw)
+
+
+def gen_enc(tier):
+    def gen():
+        for spec in ENC_BASES:
+            for var in ENC_VARIANTS:
+                yield (spec, var)
+            yield (spec, "call-encodings")
+
+    return gen
+
+
+def probe_queries(m, crs):
+    """Fixed clear queries in cell units (every relation to a tile is exact-clear): bbox, L polygon"""
+    X = lambda u: float(m.ox + Fr(u) * m.W)  # noqa: E731
+    Y = lambda v: float(m.oy + Fr(v) * m.H)  # noqa: E731
+    bb = (X(0.25), Y(-1.75), X(2.5), Y(0.75))
+    ring = [(X(u), Y(v)) for u, v in ((-1.75, -0.75), (1.75, -0.75), (1.75, -0.25), (-1.25, -0.25), (-1.25, 2.75), (-1.75, 2.75))]
+    pieces = [Piece([(Fr(X(a)), Fr(Y(b))) for a, b in pc]) for pc in
+              ([(-1.75, -0.75), (1.75, -0.75), (1.75, -0.25), (-1.75, -0.25)],
+               [(-1.75, -0.75), (-1.25, -0.75), (-1.25, 2.75), (-1.75, 2.75)])]
+    return bb, ring, pieces
+
+
+_EXPECT = {}
+
+
+def expected(spec, m):
+    """State-independent expectations for the probe (exact model)."""
+    e = _EXPECT.get(spec)
+    if e is None:
+        bb, ring, pieces = probe_queries(m, spec[1])
+        q = tuple(Fr(v) for v in bb)
+        tb = sorted(i for i in m.cells(q) if classify_bbox(m, q, m.fp(*i), False, 0) == "req")
+        xs, ys = [x for x, _ in ring], [y for _, y in ring]
+        qb = (Fr(min(xs)), Fr(min(ys)), Fr(max(xs)), Fr(max(ys)))
+        cls = {i: classify_poly(pieces, m.fp(*i), exact=True) for i in m.cells(qb)}
+        assert "open" not in cls.values() and all(classify_bbox(m, q, m.fp(*i), False, 0) != "open" for i in m.cells(q))
+        tp = sorted(i for i, c in cls.items() if c == "req")
+        e = _EXPECT[spec] = dict(fps=tuple(m.fp(*i) for i in PROBE_IDX), pts=PROBE_IDX, tiles=tb, poly=tp)
+    return e
+
+
+def observe(gs, spec, m, cache=None):
+    crs = spec[1]
+    bb, ring, _ = probe_queries(m, crs)
+    fps = tuple(gb_fp(gs[i]) for i in PROBE_IDX)
+    pts = tuple(tuple(gs.pt2idx(float((f[0] + f[2]) / 2), float((f[1] + f[3]) / 2)).xy) for f in (m.fp(*i) for i in PROBE_IDX))
+    bounds = BoundingBox(*bb, crs)
+    got = list(gs.tiles(bounds)) if cache is None else list(gs.tiles(bounds, geobox_cache=cache))
+    poly = geom.polygon(ring + ring[:1], crs)
+    gotp = list(gs.tiles_from_geopolygon(poly)) if cache is None else list(gs.tiles_from_geopolygon(poly, geobox_cache=cache))
+    gbs_ok = all(gb_fp(g) == m.fp(*i) and (g.shape.y, g.shape.x) == tuple(spec[2]) and g.resolution.xy == tuple(spec[3])
+                 for i, g in got + gotp)
+    ib = tuple(int(v) for v in gs.idx_bounds(bounds))
+    return dict(fps=fps, pts=pts, tiles=sorted(tuple(i) for i, _ in got), poly=sorted(tuple(i) for i, _ in gotp),
+                geoboxes_ok=gbs_ok, idx_bounds=ib,
+                types=all(isinstance(v, int) for p in pts for v in p) and all(isinstance(v, int) for i, _ in got for v in i))
+
+
+def compare_obs(r, obs, exp, key, what):
+    for f in ("fps", "pts", "tiles", "poly"):
+        if tuple(obs[f]) != tuple(exp[f]):
+            r.fail(f"{key}:{f}", f"{what}: {f} = {obs[f] if f != 'fps' else [fmt(x) for x in obs[f]]} "
+                                 f"want {exp[f] if f != 'fps' else [fmt(x) for x in exp[f]]}")
+    if not obs["geoboxes_ok"]:
+        r.fail(f"{key}:returned-geoboxes", f"{what}: a GeoBox returned by a query differs from the grid definition")
+    if not obs["types"]:
+        r.fail(f"{key}:index-types", f"{what}: indices are not python ints")
+
+
+def run_enc(case):
+    np = _np()
+    from odc.geo import ixy_, iyx_  # pylint: disable=import-outside-toplevel
+    from odc.geo.crs import CRS  # pylint: disable=import-outside-toplevel
+    spec, var = case
+    base, m = grid(spec)
+    exp = expected(spec, m)
+    crs = spec[1]
+    r = R(outcome=var)
+    what = f"GridSpec{spec[1:]} variant {var}"
+    if var != "call-encodings":
+        gs = build_variant(spec, var)
+        if gs is None:
+            r.outcome += ":n/a"
+            r.nontrivial = False
+            return r
+        compare_obs(r, observe(gs, spec, m), exp, f"encoding:{var}", what)
+        if not (gs == base and base == gs) or gs != base:
+            r.fail(f"encoding:{var}:not-equal", f"{what}: grid built from equal arguments compares unequal to the canonical one")
+        if tuple(gs.tile_size.xy) != (float(m.W), float(m.H)) or (gs.tile_shape.y, gs.tile_shape.x) != tuple(spec[2]):
+            r.fail(f"encoding:{var}:tile_size", f"{what}: tile_size {gs.tile_size} tile_shape {gs.tile_shape}")
+        return r
+    # call arguments in other encodings on the canonical grid
+    gs = base
+    for i, want in zip(PROBE_IDX, exp["fps"]):
+        ix, iy = i
+        for name, arg in (("Index2d-xy", ixy_(ix, iy)), ("Index2d-yx", iyx_(iy, ix)), ("numpy-ints", (np.int64(ix), np.int32(iy))),
+                          ("Index2d-from-numpy-tuple", ixy_((np.int64(ix), np.int64(iy)))), ("XY-int", xy_(ix, iy))):
+            for fn, f in (("tile_geobox", gs.tile_geobox), ("getitem", gs.__getitem__)):
+                if gb_fp(f(arg)) != want:
+                    r.fail(f"encoding:index:{name}:{fn}", f"{what}: {fn}({arg!r}) footprint {fmt(gb_fp(f(arg)))} want {fmt(want)}")
+        if gb_fp(gs[ix, iy]) != want:
+            r.fail("encoding:index:two-args:getitem", f"{what}: gs[{ix},{iy}]")
+        cx, cy = float((want[0] + want[2]) / 2), float((want[1] + want[3]) / 2)  # dyadic, exact in float32 too
+        for name, P in (("np64", (np.float64(cx), np.float64(cy))), ("np32", (np.float32(cx), np.float32(cy))),
+                        ("int", (int(cx), int(cy)) if cx.is_integer() and cy.is_integer() else None)):
+            if P is not None and float(P[0]) == cx and float(P[1]) == cy:
+                J = gs.pt2idx(*P)
+                if tuple(J.xy) != i or not all(isinstance(v, int) for v in J.xy):
+                    r.fail(f"encoding:point:{name}", f"{what}: pt2idx{P!r} -> {J!r} want {i}")
+    bb, ring, _ = probe_queries(m, crs)
+    code = int(crs.split(":")[1])
+    for name, c in (("int", code), ("lower", f"epsg:{code}"), ("wkt", pyproj.CRS.from_epsg(code).to_wkt()),
+                    ("CRS-wkt", CRS(pyproj.CRS.from_epsg(code).to_wkt())), ("pyproj", pyproj.CRS.from_epsg(code)),
+                    ("projjson", pyproj.CRS.from_epsg(code).to_json_dict())):
+        got = sorted(tuple(i) for i, _ in gs.tiles(BoundingBox(*bb, c)))
+        if got != exp["tiles"]:
+            r.fail(f"encoding:bbox-crs:{name}", f"{what}: tiles(BoundingBox(.., crs={name})) -> {got} want {exp['tiles']}")
+        got = sorted(tuple(i) for i, _ in gs.tiles_from_geopolygon(geom.polygon(ring + ring[:1], c)))
+        if got != exp["poly"]:
+            r.fail(f"encoding:polygon-crs:{name}", f"{what}: tiles_from_geopolygon(polygon(.., crs={name})) -> {got} want {exp['poly']}")
+    got = sorted(tuple(i) for i, _ in gs.tiles(BoundingBox(*(np.float64(v) for v in bb), crs)))
+    if got != exp["tiles"]:
+        r.fail("encoding:bbox-coords:np64", f"{what}: -> {got} want {exp['tiles']}")
+    lst = [[x, y] for x, y in ring + ring[:1]]
+    got = sorted(tuple(i) for i, _ in gs.tiles_from_geopolygon(geom.polygon(lst, crs)))
+    if got != exp["poly"]:
+        r.fail("encoding:polygon-coords:lists", f"{what}: -> {got} want {exp['poly']}")
+    # from_sample_tile with shape / idx in other encodings
+    ny, nx = spec[2]
+    from odc.geo import wh_  # pylint: disable=import-outside-toplevel
+    for name, shp, idx in (("list-Index2d", [ny, nx], ixy_(2, 1)), ("wh-numpy", wh_(nx, ny), (np.int64(2), np.int32(1))),
+                           ("numpy-yx", (np.int32(ny), np.int64(nx)), iyx_(1, 2))):
+        g2 = GridSpec.from_sample_tile(gs[2, 1].extent, shape=shp, idx=idx, flipx=spec[5], flipy=spec[6])
+        if tuple(gb_fp(g2[i]) for i in PROBE_IDX) != exp["fps"]:
+            r.fail(f"encoding:from_sample_tile:{name}", f"{what}: rebuilt footprints differ")
+    return r
+
+
+# ---------------------------------------------------------------------------------------------
+# slice 8: call histories on ONE instance; the probe after the history must answer like the model and like a fresh
+# instance (instance memo, shared geobox_cache, process-wide caches keyed by id / zoom must not leak)
+# ---------------------------------------------------------------------------------------------
+H_BASES = tuple(("D", "EPSG:3857", shp, res, (3.5, -1.25), fx, fy)
+                for shp, res in (((2, 8), (-2.0, 4.0)), ((4, 4), (0.5, -0.5))) for fx, fy in FLIPS)
+H_OPS = ("geobox+views", "geobox-far", "pt2idx", "tiles", "tiles-cache", "poly", "poly-cache", "poly-other-crs",
+         "idx_bounds", "geojson", "rebuild", "props", "other-grids", "web", "empty-query", "many-live-grids")
+
+
+def h_apply(op, gs, spec, m, cache):
+    crs = spec[1]
+    bb, ring, _ = probe_queries(m, crs)
+    X = lambda u: float(m.ox + Fr(u) * m.W)  # noqa: E731
+    Y = lambda v: float(m.oy + Fr(v) * m.H)  # noqa: E731
+    if op == "geobox+views":
+        for i in ((1, -2), (0, 0), (5, 5)):
+            g = gs.tile_geobox(i)
+            _ = (g.extent, g.boundingbox, g.resolution, g.alignment)
+            if i == (0, 0):
+                _ = g.geographic_extent
+    elif op == "geobox-far":
+        _ = [gs[i] for i in FAR]
+    elif op == "pt2idx":
+        _ = [gs.pt2idx(X(u), Y(v)) for u, v in ((0.5, 0.5), (-7.25, 3.0), (1.0, 1.0))]
+    elif op == "tiles":
+        _ = list(gs.tiles(BoundingBox(X(-3.5), Y(-3.5), X(-2.5), Y(4.5), crs)))
+    elif op == "tiles-cache":
+        _ = list(gs.tiles(BoundingBox(X(-0.5), Y(-2.5), X(3.5), Y(1.5), crs), geobox_cache=cache))
+    elif op == "poly":
+        tri = [(X(-2), Y(-2)), (X(2), Y(-2)), (X(-2), Y(2))]
+        _ = list(gs.tiles_from_geopolygon(geom.polygon(tri + tri[:1], crs)))
+    elif op == "poly-cache":
+        tri = [(X(3), Y(3)), (X(-1), Y(3)), (X(3), Y(-1))]
+        for g in [g for _, g in gs.tiles_from_geopolygon(geom.polygon(tri + tri[:1], crs), geobox_cache=cache)]:
+            _ = g.extent
+    elif op == "poly-other-crs":
+        inv = transformer(crs, "EPSG:4326")
+        rg = [inv.transform(X(u), Y(v)) for u, v in ((0.25, 0.25), (1.75, 0.25), (1.75, 1.5), (0.25, 1.5))]
+        _ = list(gs.tiles_from_geopolygon(geom.polygon(rg + rg[:1], "EPSG:4326"), geobox_cache=cache))
+    elif op == "idx_bounds":
+        _ = gs.idx_bounds(BoundingBox(X(0), Y(0), X(1), Y(1), crs))
+    elif op == "geojson":
+        _ = gs.geojson(bbox=BoundingBox(X(-1.5), Y(-1.5), X(0.5), Y(0.5), crs))
+    elif op == "rebuild":
+        g2 = GridSpec.from_sample_tile(gs[-2, 3].extent, shape=spec[2], idx=(-2, 3), flipx=spec[5], flipy=spec[6])
+        _ = (g2 == gs, list(g2.tiles(BoundingBox(*bb, crs))))
+    elif op == "props":
+        _ = (gs.alignment, gs.tile_size, gs.tile_shape, gs.dimensions, str(gs), repr(gs), gs == gs, gs == mk_grid(spec))
+    elif op == "other-grids":
+        # short-lived grids with the same indices / queries (ids of dead objects get reused)
+        for org, fl in (((-16.0, 32.0), (not spec[5], spec[6])), ((0.0, 2.5), (spec[5], not spec[6])), (None, (False, False))):
+            g2 = mk_grid(spec[:4] + (org, fl[0], fl[1]))
+            _ = ([g2[i] for i in PROBE_IDX], list(g2.tiles(BoundingBox(*bb, crs))))
+            del g2
+    elif op == "web":
+        _ = (GridSpec.web_tiles(3, 512)[1, 2], GridSpec.web_tiles(3)[1, 2], GridSpec.web_tiles(2, 128)[1, 2])
+    elif op == "many-live-grids":
+        # more than 128 live grids, each used once (bounded process-wide caches must not evict into wrong answers)
+        live = [mk_grid(spec[:4] + ((float(i), -0.5 * i), spec[5], spec[6])) for i in range(1, 140)]
+        _ = [g[1, -2] for g in live] + [g.pt2idx(0.5, 0.5) for g in live[:5]]
+    elif op == "empty-query":
+        _ = list(gs.tiles_from_geopolygon(geom.Geometry(sg.Polygon(), crs), geobox_cache=cache))
+    else:
+        raise ValueError(op)
+
+
+def gen_hist(tier):
+    def gen():
+        for si, spec in enumerate(H_BASES):
+            depth = 3 if (tier == "thorough" or si in (1, 6)) else 2
+            for n in range(1, depth + 1):
+                for ops in itertools.product(range(len(H_OPS)), repeat=n):
+                    yield (spec, ops)
+        if tier == "thorough":
+            for spec in (H_BASES[1], H_BASES[6]):
+                for ops in itertools.product(range(len(H_OPS)), repeat=4):
+                    yield (spec, ops)
+        for a in WEB_H:
+            for b in WEB_H:
+                for c in WEB_H:
+                    yield ("web", (a, b, c))
+
+    return gen
+
+
+WEB_H = ((3, 256), (3, 512), (5, 256), (3, 128), (5, 512))
+
+
+def run_hist(case):
+    spec, ops = case
+    if spec == "web":
+        r = R(outcome="web-history")
+        half = math.pi * RE
+        for z, npix in ops[:-1]:
+            _ = GridSpec.web_tiles(z, npix)[0, 0]
+        z, npix = ops[-1]
+        for gs, how in ((GridSpec.web_tiles(z, npix), "positional"), (GridSpec.web_tiles(zoom=z, npix=npix), "keywords")) + \
+                (((GridSpec.web_tiles(z), "default-npix"),) if npix == 256 else ()):
+            gb = gs[1, 2]
+            tsz = 2 * half / 2 ** z
+            F = gb_fp(gb)
+            want = (-half + tsz, half - 3 * tsz, -half + 2 * tsz, half - 2 * tsz)
+            ok = F is not None and all(abs(float(a) - b) <= 2.0 ** -52 * half * (4 + 2 ** (z + 1)) + 1e-9 * tsz / npix for a, b in zip(F, want))
+            if not ok or (gb.shape.y, gb.shape.x) != (npix, npix) or abs(abs(gb.resolution.x) - tsz / npix) > 1e-9 * tsz / npix:
+                r.fail(f"history:web_tiles:{how}", f"after web_tiles{ops[:-1]}: web_tiles({z},{npix})[1,2] shape {gb.shape} "
+                                                   f"resolution {gb.resolution} footprint {fmt(F)} want {want}")
+        return r
+    m = Model(spec)
+    exp = expected(spec, m)
+    gs = mk_grid(spec)
+    cache = {}
+    names = [H_OPS[o] for o in ops]
+    for op in names:
+        h_apply(op, gs, spec, m, cache)
+    r = R(outcome=f"len{len(ops)}:last-{names[-1]}")
+    what = f"GridSpec{spec[1:]} after {names}"
+    o1 = observe(gs, spec, m)
+    compare_obs(r, o1, exp, "history:probe", what)
+    o2 = observe(gs, spec, m, cache)
+    compare_obs(r, o2, exp, "history:probe-with-shared-cache", what)
+    fresh = observe(mk_grid(spec), spec, m)
+    if fresh != o1 or fresh != o2:
+        diff = [f for f in fresh if fresh[f] != o1[f] or fresh[f] != o2[f]]
+        r.fail(f"history:differs-from-fresh-instance:{diff[0]}", f"{what}: {diff} differ between the used and a fresh instance")
+    bad = [i for i, g in cache.items() if gb_fp(g) != m.fp(*i)]
+    if bad:
+        r.fail("history:shared-geobox_cache-holds-wrong-geobox", f"{what}: cache entries {bad[:4]}")
+    return r
+
+
+# ---------------------------------------------------------------------------------------------
 def slices(tier):
     return [
         e1.Slice("tiling", gen_tiling(tier), run_tiling,
@@ -1205,6 +1592,13 @@ def slices(tier):
         e1.Slice("query-other-crs", gen_xcrs(tier), run_xcrs,
                  "7 grids (3857, UTM, Albers, 4326) x flips x 6 shapes given in another CRS; oracle pyproj+shapely with "
                  "margin = 2x chord deviation", shards=16),
+        e1.Slice("encodings", gen_enc(tier), run_enc,
+                 "72 D grids x 27 constructor-argument encodings (CRS spellings, numpy/int/list/Shape2d/Resolution/XY/"
+                 "-0.0/flags as ints) + index/point/bbox/polygon/from_sample_tile argument encodings; exact model + =="),
+        e1.Slice("history", gen_hist(tier), run_hist,
+                 "8 D grids x every sequence of <= 2 (on 2 grids <= 3; thorough: <= 3 on all, 4 on 2) of 16 operations on ONE instance with a "
+                 "shared geobox_cache, then a probe judged by the exact model and against a fresh instance; web_tiles "
+                 "call histories over (zoom, npix)"),
         e1.Slice("web-tiles", gen_web(tier), run_web,
                  "web_tiles(z, npix) z=0..8 (thorough 0..12), npix 256/512: every tile for z<=4, border/centre tiles "
                  "above; extents vs slippy-map formula, lon/lat lookups, 2^z count", shards=16),
@@ -1219,25 +1613,38 @@ def main(ctx):
     )
     ctx.bounds = {
         "D_shapes": D_SHAPES if ctx.tier != "thorough" else D_SHAPES_T,
-        "D_resolutions": D_RES if ctx.tier != "thorough" else D_RES_T, "D_origins": D_ORG,
+        "D_resolutions": D_RES if ctx.tier != "thorough" else D_RES_T,
+        "D_origins": D_ORG if ctx.tier != "thorough" else D_ORG_T, "extreme_grids": E_GRIDS,
+        "query_geometries": sorted(GEOMS), "encodings": ENC_VARIANTS, "history_ops": H_OPS,
         "R_resolutions": R_RES if ctx.tier != "thorough" else R_RES_T, "R_origins": R_ORG,
         "flips": "all 4", "index_window": "[-3,3]^2 (thorough tiling [-4,4]^2) + far indices " + repr(FAR),
         "bbox_axis_intervals": len(AX_FULL), "bbox_offsets": OFFS, "polygon_shapes": sorted(SHAPES),
-        "other_crs_grids": [g[:4] + (g[5],) for g in X_GRIDS], "web_zoom": "0..8 quick / 0..12 thorough",
+        "other_crs_grids": [g[:4] + (g[5],) for g in X_GRIDS], "web_zoom": "0..8 + 16 quick / 0..12 + 16, 20 thorough",
     }
     ctx.assumptions = [
         "layout reference = class docstring: origin is the bottom-left corner of tile (0,0); index grows right/up, "
         "reversed per axis by flipx/flipy (Bin1D direction)",
-        "D alphabet: exact comparison; R alphabet: exact rationals of the float inputs, tolerance 1e-9*(|value|+pixel)",
+        "D alphabet: exact comparison; R alphabet: exact rationals of the float inputs, tolerance 16 ulp of (|value| + "
+        "|origin|) + 1e-9 pixel (rebuilt grids: times 1 + index distance from the sample tile; web tiles: 2^-52 * pi*R * "
+        "(4 + 2*2^z) + 1e-9 pixel) - 1e-13 deg on a 4.5e-6 deg grid at 15 deg, 4e-8 m at 6e6 m",
+        "near-edge point lookups (+-1 ulp at the scale of the grid, +-0.9e-8, +-1.1e-8) are not dyadic: containment in "
+        "the returned tile is judged with 4 ulp of (|edge| + |origin| + tile size)",
         "point lookup: the returned tile's closed footprint must contain the point; interior points must map to their "
         "own tile; which of the touching tiles owns an edge/corner point is not demanded (recorded in the outcome label)",
-        "queries: overlap depth >= 5e-7 (constructed >= 1e-6) in both axes => tile must be returned; gap >= 5e-7 => must "
-        "not be returned; bounding-box query touching a tile exactly or missing it by <= 1e-9 => must not be returned "
-        "(the property's 1e-8 exclusion; also asserted by the repository's test_tiles_tight_query_issue_97); overlap "
-        "depth in (0, 5e-7) is left open; queries thinner than 1e-7 are only judged for clearly disjoint tiles",
-        "polygon queries: a tile that only touches the polygon (point or edge contact, or within 1e-9) may or may not be "
-        "returned (the implementation returns it when the polygon's bounding box overlaps the tile: `not disjoint`); "
-        "counted in counters contact_returned/contact_not_returned, not judged",
+        "bounding-box queries (tiles, idx_bounds, and the same box through tiles_from_geopolygon(geom.box) and "
+        "geojson(bbox= / geopolygon=)): overlap depth >= 1.0005e-8 (+R tolerance) in both axes => tile must be returned; "
+        "depth <= 0.9995e-8 (edge contact within the property's absolute 1e-8 units, exact touching, gap) => must not be "
+        "returned; the band between is open (R grids with large coordinates fall into it through their tolerance); "
+        "queries thinner than 1e-7 are only judged for clearly disjoint tiles (gap >= 5e-7)",
+        "polygon queries: SAT depth >= 5e-7 => required; gap >= 5e-7 => forbidden; on the dyadic alphabet a tile that "
+        "exactly touches the polygon (depth == 0) is forbidden ('edge contacts excluded', repaired in b2fbc6a); other "
+        "contacts (within 1e-9) are open and counted in contact_returned/contact_not_returned",
+        "queries with non-areal geometries (points, lines, rings) are judged by the same reading: a tile whose interior "
+        "clearly (2^-12) contains part of the geometry must be returned, a tile clearly away from it (a ring counted with "
+        "the area it encloses) must not; exact contacts are open. An empty geometry overlaps nothing: [] demanded "
+        "(repaired in 6bc3118). A geometry without CRS: the documented ValueError of to_crs is accepted",
+        "equal-but-differently-typed arguments (encodings slice) must give identical footprints / lookups / tile sets "
+        "and == grids; GridSpec defines no __hash__, none is demanded",
         "BoundingBox queries are made in the grid's own CRS only (idx_bounds asserts crs equality; geojson documents "
         "'native CRS of the grid'); other CRSs are exercised through tiles_from_geopolygon",
         "other-CRS queries: tiles closer to the query boundary than 2x the deviation between the projected edge and its "
